@@ -182,6 +182,53 @@ def run_task(task, tier, seed):
             res["violations"].append({"obligation": oid, "input": s, "replay_text": body})
         elif statuses[solvers[0]][0] == "unknown" and "sat" not in sts:
             res["undecided"].append(f"{oid}: solver answered unknown/timeout {statuses}")
+    # ---- group structure (only when the grammar file states one): the skeleton of the literal down to its named groups, compared as text,
+    # and the language of each listed group, decided by the solver. These ground the trusted axiom about `captures(..).name(..)` that the
+    # Verus unit uses for `from_str` (TRUSTED[...-regex-groups]); a change of the literal that moves a group boundary or changes what a
+    # group may hold fails here even if the language of the whole pattern stays the same.
+    if hasattr(g, "SKELETON"):
+        oid = f"{name}::skeleton"
+        same = (r.get("skeleton") == g.SKELETON) and not r.get("skeleton_error")
+        res["obligations"].append({"id": oid, "discharged": same, "solvers": {"vx-structural-comparison": "equal" if same else "different"}, "ms": {}})
+        res["samples"].append({"obligation": oid, "text": "the pattern literal has the group structure the from_str contract relies on",
+                               "query": f"skeleton(literal) == {g.SKELETON!r}", "expected": "equal", "backend": "vx (regex-syntax HIR walk)",
+                               "result": {"skeleton": r.get("skeleton"), "error": r.get("skeleton_error")}})
+        if not same:
+            body = (f"property: {task['property']}\nfailed obligation: {oid}\nmeaning: the group structure of the pattern literal differs from the one the "
+                    f"contract of from_str relies on\nexpected: {g.SKELETON}\nfound:    {r.get('skeleton')} {r.get('skeleton_error')}\n"
+                    f"pattern literal from {task['file']}::{task['static']}:\n{r['pattern']}\n"
+                    f"no counterexample engine for a structural obligation: no-failing-input-found\n")
+            res["violations"].append({"obligation": oid, "input": None, "replay_text": body})
+        for gname, glang in sorted(getattr(g, "GROUPS", {}).items()):
+            oid = f"{name}::group-language[{gname}]"
+            code_lang = r.get("groups", {}).get(gname)
+            if code_lang is None:
+                res["undecided"].append(f"{oid}: lost anchor: the pattern has no group named {gname}")
+                continue
+            gdefs = [f"(define-fun gcode () RegLan {code_lang})", f"(define-fun gspec () RegLan {glang})"]
+            asserts = ["(str.in_re s (re.union (re.diff gcode gspec) (re.diff gspec gcode)))"]
+            statuses = {}
+            for sv in solvers:
+                st, model, ms = solve(sv, gdefs, asserts, timeout if sv == solvers[0] else 20, seed)
+                res["smt_ms"] += ms
+                statuses[sv] = (st, ms, model)
+            sts = {v[0] for v in statuses.values()}
+            discharged = statuses[solvers[0]][0] == "unsat" and "sat" not in sts
+            res["obligations"].append({"id": oid, "discharged": discharged, "solvers": {k: v[0] for k, v in statuses.items()},
+                                       "ms": {k: v[1] for k, v in statuses.items()}})
+            res["samples"].append({"obligation": oid, "text": f"group `{gname}` of the literal holds exactly the texts the contract says",
+                                   "query": asserts[0], "expected": "unsat", "backend": res["backend"], "result": {k: v[0] for k, v in statuses.items()}})
+            if "sat" in sts:
+                model = next(v[2] for v in statuses.values() if v[0] == "sat")
+                body = (f"property: {task['property']}\nfailed obligation: {oid}\nmeaning: group `{gname}` of the pattern literal does not hold exactly the "
+                        f"texts the contract of from_str relies on\nsolver witness (a text in one language and not in the other): {model!r}\n"
+                        f"pattern literal from {task['file']}::{task['static']}:\n{r['pattern']}\n"
+                        f"the witness is a group text, not a whole version: no-failing-input-found\n")
+                res["violations"].append({"obligation": oid, "input": None, "replay_text": body})
+            elif not discharged:
+                res["undecided"].append(f"{oid}: solver answered unknown/timeout {statuses}")
+        res["trusted"][name + "-groups"] = ("regex crate: for an anchored match, `captures.name(g)` is the text group g matched and the groups with the "
+                                            "literals between them make up the whole text; the decomposition is unique for this skeleton (" + getattr(g, "UNIQUE_WHY", "") + ")")
     # ---- translation guard: members and non-members sampled from the solver must agree with the real parser
     checked, disagreements = 0, []
     probes = []
